@@ -109,6 +109,7 @@ type StopObs struct {
 	LateCalls       int32
 	DumpSeen        bool
 	CauseFired      bool // the stop cause demonstrably reached the library
+	TotalTx         int  // deliveries of the fault-free history from the start position
 	Panicked        string
 }
 
@@ -166,6 +167,13 @@ func readerState(st *attemptState) string {
 	}
 	return "gone"
 }
+
+// rowsQueryFault: the injected "unsupported" event is the rows-query event.  It carries nothing but the text of
+// the statement whose row changes follow (a comment for humans): a replica that refuses it ends the attempt
+// with an error like for every event it cannot handle, but one that skips it like the other informational
+// events loses nothing and breaks none of the properties - unlike the INTVAR / RAND events, whose values the
+// following statement depends on.
+func rowsQueryFault(f Fault) bool { return f.Kind == "unsupported" && f.Sub%3 == 0 }
 
 // runStop executes one scenario.
 func runStop(c *StopCase) *StopObs {
@@ -365,6 +373,11 @@ func runStop(c *StopCase) *StopObs {
 						st.mu.Unlock()
 					}
 					q = q || i > last
+					if rowsQueryFault(f) {
+						// a replica may treat the informational rows-query event as ignorable: then nothing has
+						// stopped it, and a master that falls silent would only make it wait (as it should)
+						q = atomic.LoadInt32(&quiet) == 1
+					}
 				case "mapper_err", "mapper_cols":
 					ss.mp.mu.Lock()
 					q = q || ss.mp.fired
@@ -530,6 +543,7 @@ func runStop(c *StopCase) *StopObs {
 	obs.StreamReturned = !st.fellBack
 	obs.StreamErr = st.streamErr
 	obs.Delivered = len(st.got)
+	obs.TotalTx = len(l.Expected(hist.Pos{File: c.H.FirstFile, Off: c.H.Base}, 0))
 	obs.MaxInHandler = atomic.LoadInt32(&st.maxInHand)
 	if obs.ReaderAtStop == "" && obs.DumpSeen {
 		if c.Pacing == PaceLockStep {
@@ -554,7 +568,9 @@ func runStop(c *StopCase) *StopObs {
 		}
 		st.mu.Unlock()
 		obs.CauseFired = obs.DumpSeen && plan.Written() > at
-	case f.Kind == "refuse" || f.Kind == "err_handshake" || f.Kind == "err_query" || f.Kind == "dump_unsendable":
+	case f.Kind == "err_query":
+		obs.CauseFired = plan.QueryErrSent()
+	case f.Kind == "refuse" || f.Kind == "err_handshake" || f.Kind == "dump_unsendable":
 		obs.CauseFired = true
 	}
 
